@@ -26,7 +26,13 @@ def gen_cases(rng, n, tier):
         if k < 0.6:
             base = rng.choice([2, 3, 7, 8, 10, 10, 16, 16, 35, 36, rng.randint(2, 36), rng.randint(2, 36)])
             r = rng.random()
-            if r < 0.25:
+            if r < 0.15:
+                # limbs that are powers of the base (the chunk sizes of chunked conversions), next to boundary limbs
+                pw = [base ** k for k in range(1, 33) if base ** k < 2 ** 32]
+                v = 0
+                for i in range(rng.randint(2, maxl)):
+                    v |= rng.choice(pw[-3:] + [pw[-1], pw[-1] - 1, pw[-1] + 1, 0, rng.getrandbits(32)]) << (32 * i)
+            elif r < 0.3:
                 e = rng.randint(0, (32 * maxl) // max(1, base.bit_length()))
                 v = base ** e + rng.choice([-1, 0, 1])
             else:
